@@ -180,6 +180,10 @@ fn run(ctx: &Ctx) -> Run {
                 }
             };
             let seg = if rng.chance(0.15) { None } else { Some(1 + rng.below(64) as i32) };
+            if i % 3 == 1 {
+                prime_history(&mut rng, c);
+                run.count("primed_with_a_relative");
+            }
             check_ring(run, c, seg, rng.chance(0.5), class);
             run.count(&format!("class.{class}"));
             run.count(&format!("res.{res:02}"));
